@@ -33,6 +33,10 @@ type channelBroker struct {
 	// get funneled into for handling
 	msgChan chan *uasc.MessageBody
 	logger  Logger
+
+	// allowSecurity reports whether the server has been
+	// configured with the given security policy and mode.
+	allowSecurity func(policyURI string, mode ua.MessageSecurityMode) bool
 }
 
 func newChannelBroker(logger Logger) *channelBroker {
@@ -55,6 +59,7 @@ func (c *channelBroker) RegisterConn(ctx context.Context, conn *uacp.Conn, local
 	cfg := defaultChannelConfig()
 	cfg.Certificate = localCert
 	cfg.LocalKey = localKey
+	cfg.AllowSecurity = c.allowSecurity
 
 	c.mu.Lock()
 	c.secureChannelID++
